@@ -49,11 +49,8 @@ def preimport():
             pass
     # the tutorial alarm provider runs a periodic self-check transaction in a worker thread: switch it off
     # (it would interleave nondeterministically with the generated histories)
-    try:
-        from tutorial.productandroles import alarmprovider
-        alarmprovider.GenericAlarmProvider.WORKER_THREAD_INTERVAL = 36000.0
-    except Exception:  # noqa: BLE001
-        pass
+    from tutorial.productandroles import alarmprovider
+    alarmprovider.AlertSystemStateMaintainer.WORKER_THREAD_INTERVAL = 36000.0
 
 
 def install_clock(clock: VClock):
